@@ -132,8 +132,10 @@ func runCompRace(x *X) {
 				switch {
 				case op < 12:
 					rl.Allow(clients[(g+op)%len(clients)])
-				case op < 14:
+				case op < 13:
 					time.Sleep(time.Duration(op) * 7 * time.Minute) // across cleanup ticks and bucket expiry
+				case op < 14:
+					rl.Allow(fmt.Sprintf("10.8.0.%d", i)) // a client nobody has seen yet, first seen by several goroutines at once
 				default:
 					rl.Allow(fmt.Sprintf("10.9.%d.%d", g, i)) // ever new clients: the map grows and is cleaned
 				}
